@@ -117,6 +117,70 @@ def splitFile (lines : List Str) : List Str × Option Str × List Str :=
   | [] => (header, none, [])
   | cols :: body => (header, some cols, body)
 
+
+/-! ### table body: one record of `DataFrame.to_csv` (python `csv` writer, QUOTE_MINIMAL) and the reader's tokeniser -/
+
+/-- characters that force a field to be quoted -/
+def special (c : Char) : Bool := c == ',' || c == '"' || c == '\n' || c == '\r'
+
+def needsQuote (s : Str) : Bool := s.any special
+
+/-- a quote inside a quoted field is doubled -/
+def escapeQ : Str → Str
+  | [] => []
+  | c :: s => if c == '"' then '"' :: '"' :: escapeQ s else c :: escapeQ s
+
+def quoteField (s : Str) : Str := if needsQuote s then '"' :: (escapeQ s ++ ['"']) else s
+
+/-- one record: fields joined by commas (no line terminator) -/
+def writeRow : List Str → Str
+  | [] => []
+  | [f] => quoteField f
+  | f :: g :: fs => quoteField f ++ ',' :: writeRow (g :: fs)
+
+inductive PSt | start | unq | q | qq
+  deriving DecidableEq, Repr
+
+/-- tokeniser state: where we are, the field being read, the fields completed so far -/
+structure PState where
+  st : PSt
+  cur : Str
+  done : List Str
+  deriving Repr
+
+/-- one character of the tokeniser (the state machine of pandas' C parser restricted to `,` and `"`):
+`start` = nothing of the field read yet, `unq` = inside an unquoted field, `q` = inside quotes,
+`qq` = a quote seen inside quotes (closing quote, or first half of a doubled quote) -/
+def pstep (s : PState) (c : Char) : PState :=
+  match s.st with
+  | .start =>
+    if c == '"' then { s with st := .q }
+    else if c == ',' then { st := .start, cur := [], done := s.done ++ [s.cur] }
+    else { s with st := .unq, cur := s.cur ++ [c] }
+  | .unq =>
+    if c == ',' then { st := .start, cur := [], done := s.done ++ [s.cur] }
+    else { s with cur := s.cur ++ [c] }
+  | .q =>
+    if c == '"' then { s with st := .qq } else { s with cur := s.cur ++ [c] }
+  | .qq =>
+    if c == '"' then { s with st := .q, cur := s.cur ++ ['"'] }
+    else if c == ',' then { st := .start, cur := [], done := s.done ++ [s.cur] }
+    else { s with st := .unq, cur := s.cur ++ [c] }
+
+def parseRow (line : Str) : List Str :=
+  let s := line.foldl pstep ⟨.start, [], []⟩
+  s.done ++ [s.cur]
+
+/-- the column-name line as `read_csv` treats it: `line.strip().split(",")` (not quote-aware) -/
+def splitOnComma : Str → List Str
+  | [] => [[]]
+  | c :: s =>
+    match splitOnComma s with
+    | [] => [[]]           -- unreachable
+    | f :: fs => if c == ',' then [] :: f :: fs else (c :: f) :: fs
+
+def splitCols (line : Str) : List Str := splitOnComma (strip line)
+
 /-! ### file names (last path component only; the parent directory is carried along unchanged) -/
 
 /-- pathlib's split of a name at its last '.', when that dot is neither the first nor the last character:
